@@ -42,6 +42,11 @@ CLAIMS = {
             'where their returned text lands and leaves a consistent state (covers runs of any length by induction). End to end: '
             'for each template x syntax, tabstops are numbered 1,2,3.. in document order without collisions and every callback '
             'position equals the prefix sum of the text returned before it.', '§3 C13'),
+    'C15': ('bounded symbolic execution (CrossHair/z3): C01 operator skeletons rendered by the haml/pug/slim writers against a reference '
+            'line writer; decorated templates with a symbolic indent string and payload',
+            'All well-formed skeletons up to the stated size x 3 syntaxes must produce exactly one line per element at its depth '
+            '(reference line writer over the same reference tree as C01, so the tree equals the HTML tree by construction); '
+            'id/class/attribute/text/multi-line layouts are checked for every indent string of spaces/tabs within the bound.', '§3 C15'),
     'C11': ('bounded symbolic execution (CrossHair/z3) of the real extract_abbreviation over all short lines x all integer carets x '
             'option sets, plus templates with concrete valid abbreviations and symbolic left/right context',
             'Consistency clauses: path tree of the real extractor exhausted for every ASCII line up to the stated length, every '
